@@ -233,6 +233,12 @@ func (e *Exec) callMod(fn *ssa.Function, cc *ssa.CallCommon, mod map[string]Sort
 			}
 			return
 		}
+		if c, ok := e.db.externs["iface:"+key]; ok {
+			for k, v := range e.modOfContract(c, nil) {
+				mod[k] = v
+			}
+			return
+		}
 		if m, ok := externMods["iface:"+key]; ok {
 			for _, h := range m {
 				e.addNamedHeap(h, nil, mod)
@@ -272,6 +278,15 @@ func (e *Exec) callMod(fn *ssa.Function, cc *ssa.CallCommon, mod map[string]Sort
 		for k, v := range e.modOfContract(c, nil) {
 			mod[k] = v
 		}
+		if named, isN := cc.Value.Type().(*types.Named); isN && named.Obj().Exported() {
+			return // values of an exported function type obey its contract (A-USER)
+		}
+	}
+	if _, ok := externs["functype:"+key]; ok {
+		for _, h := range externMods["functype:"+key] {
+			e.addNamedHeap(h, nil, mod)
+		}
+		return
 	}
 	// closed world: any address-taken function of the same signature
 	sig := under(cc.Value.Type()).(*types.Signature)
@@ -371,12 +386,59 @@ func (e *Exec) fnMod(f *ssa.Function, mod map[string]Sort, seen map[*ssa.Functio
 }
 
 // modOfContract: declared modifies clause, or the syntactic write set of the body
-func (e *Exec) modOfContract(c *Contract, fn *ssa.Function) map[string]Sort {
-	mod := map[string]Sort{}
+var modOfContractMemo = map[*Contract]map[string]Sort{}
+var modOfContractBusy = map[*Contract]bool{}
+
+func (e *Exec) modOfContract(c *Contract, fn *ssa.Function) (mod map[string]Sort) {
+	if m, ok := modOfContractMemo[c]; ok {
+		cp := make(map[string]Sort, len(m))
+		for k, v := range m {
+			cp[k] = v
+		}
+		return cp
+	}
+	if modOfContractBusy[c] {
+		return map[string]Sort{} // recursion: the outer computation collects everything
+	}
+	modOfContractBusy[c] = true
+	defer func() {
+		delete(modOfContractBusy, c)
+		cp := make(map[string]Sort, len(mod))
+		for k, v := range mod {
+			cp[k] = v
+		}
+		modOfContractMemo[c] = cp
+	}()
+	mod = map[string]Sort{}
+	defer func() {
+		for _, sc := range c.Sets {
+			if srt, ok := e.db.ghosts[sc.Ghost]; ok {
+				if !srt.IsArr() {
+					srt = ArrSort(srt)
+				}
+				mod["G!"+sc.Ghost] = srt
+			}
+		}
+	}()
 	if c.HasModifies || fn == nil || len(fn.Blocks) == 0 || !(fn.Pkg != nil && ownPkg(fn.Pkg.Pkg)) {
 		ctx := &SpecCtx{e: e, pkg: e.pkgOf(c)}
 		for _, m := range c.Modifies {
 			e.addNamedHeap(m, ctx, mod)
+		}
+		if fn != nil && len(fn.Blocks) > 0 && fn.Pkg != nil && ownPkg(fn.Pkg.Pkg) {
+			// ghost state changed by the body (through the events it performs) is
+			// part of the frame automatically
+			syn := map[string]Sort{}
+			for _, b := range fn.Blocks {
+				for _, in := range b.Instrs {
+					e.instrMod(fn, in, syn, nil, map[*ssa.Function]bool{fn: true})
+				}
+			}
+			for k, v := range syn {
+				if strings.HasPrefix(k, "G!") {
+					mod[k] = v
+				}
+			}
 		}
 		return mod
 	}
